@@ -115,12 +115,39 @@ func (g *pcGen) header(fn *pcFn) {
 		first = []string{ptypes[0]}
 	}
 	resT, ok := g.resultType(sig, first)
+	if fn.ctorOf != nil {
+		if fn.ctorOf.err != "" {
+			pgFail("the function literal is not translated (%s)", fn.ctorOf.err)
+		}
+		body = &ast.BlockStmt{List: fn.ctorOf.pre}
+		for _, st := range fn.ctorOf.pre {
+			if pcHasReturn(st) {
+				pgFail("a `return` before the function literal")
+			}
+		}
+		var parts []string
+		for _, v := range g.ctorLocals(fn) {
+			parts = append(parts, c.typ(v.Type()))
+		}
+		switch len(parts) {
+		case 0:
+			resT = "Unit"
+		case 1:
+			resT = pgAtomT(parts[0])
+		default:
+			resT = "(" + strings.Join(parts, " × ") + ")"
+		}
+		ok = true
+	}
 	if !ok {
 		pgFail("result type %s is outside the subset", types.TypeString(sig.Results(), qual))
 	}
 	c.resLean = resT
 	c.resT = sig.Results()
-	fn.ftype = "(" + strings.Join(append(append([]string{}, ptypes...), "M "+resT), " → ") + ")"
+	if fn.ctorOf != nil {
+		c.resT = nil
+	}
+	fn.ftype = "(" + strings.Join(append(append([]string{}, ptypes...), g.mon()+" "+resT), " → ") + ")"
 	fn.c, fn.pnames, fn.ptypes, fn.resT, fn.recvName, fn.body, fn.sig = c, pnames, ptypes, resT, recvName, body, sig
 }
 
@@ -165,6 +192,15 @@ func (g *pcGen) translate(fn *pcFn) {
 	}
 	c.ret = func(vals []string) pgNode { return &pgTerm{"pure " + pcP(c.retTuple(vals))} }
 	c.retRaw = func(v string) pgNode { return &pgTerm{"pure " + v} }
+	if fn.ctorOf != nil { // the end of the statements before the `return`: the captured variables they define
+		c.ret = func(vals []string) pgNode {
+			var ns []string
+			for _, v := range g.ctorLocals(fn) {
+				ns = append(ns, c.name(v))
+			}
+			return &pgTerm{"pure " + pcP(pgTuple(ns, ""))}
+		}
+	}
 	if fn.rec {
 		for _, f := range c.cycleOrder() {
 			c.recRef[f] = f.defName() + " W fuel"
@@ -180,6 +216,9 @@ func (g *pcGen) translate(fn *pcFn) {
 	if fn.inout {
 		doc += " (the receiver is written: returned as the first component)"
 	}
+	if fn.ctorOf != nil {
+		doc = fn.pkg.tpkg.Name() + "." + strings.TrimSuffix(fn.key, "_new") + ": the statements before the `return` (construction time); answers the captured variables they define"
+	}
 	var def string
 	if fn.rec {
 		pcPrint(b, "    ", &lines)
@@ -188,14 +227,14 @@ func (g *pcGen) translate(fn *pcFn) {
 			wild[i] = "_"
 		}
 		def = fmt.Sprintf("/-- %s -/\ndef %s "+g.worldB()+" : %s\n  | %s => Go.outOfFuel\n  | %s => do\n%s\n", doc, fn.defName(),
-			strings.Join(append(append([]string{"Nat"}, ptypes...), "M "+resT), " → "),
+			strings.Join(append(append([]string{"Nat"}, ptypes...), g.mon()+" "+resT), " → "),
 			strings.Join(append([]string{"0"}, wild...), ", "), strings.Join(append([]string{"fuel + 1"}, pnames...), ", "), strings.Join(lines, "\n"))
 		if h := pcFuelHint[fn.key]; h != "" {
 			var ps []string
 			for i := range pnames {
 				ps = append(ps, "("+pnames[i]+" : "+ptypes[i]+")")
 			}
-			fn.wrapper = fmt.Sprintf("/-- %s with the fuel `%s` -/\ndef %s "+g.worldB()+" %s : M %s :=\n  %s W (%s) %s\n", doc, h, fn.key,
+			fn.wrapper = fmt.Sprintf("/-- %s with the fuel `%s` -/\ndef %s "+g.worldB()+" %s : "+g.mon()+" %s :=\n  %s W (%s) %s\n", doc, h, fn.key,
 				strings.Join(ps, " "), resT, fn.defName(), h, strings.Join(pnames, " "))
 		}
 	} else {
@@ -207,7 +246,7 @@ func (g *pcGen) translate(fn *pcFn) {
 		for i := range pnames {
 			ps = append(ps, "("+pnames[i]+" : "+ptypes[i]+")")
 		}
-		def = fmt.Sprintf("/-- %s -/\ndef %s "+g.worldB()+" %s : M %s := do\n%s\n", doc, fn.key, strings.Join(ps, " "), resT, strings.Join(lines, "\n"))
+		def = fmt.Sprintf("/-- %s -/\ndef %s "+g.worldB()+" %s : "+g.mon()+" %s := do\n%s\n", doc, fn.key, strings.Join(ps, " "), resT, strings.Join(lines, "\n"))
 		def = strings.Replace(def, ")  :", ") :", 1)
 	}
 	fn.aux = *c.aux
@@ -249,10 +288,10 @@ func pcReturnedLit(fd *ast.FuncDecl) (*ast.FuncLit, []ast.Stmt) {
 	return lit, fd.Body.List[:n-1]
 }
 
-func writeCoreFacts(path string) error { return pcWrite(path, nil) }
+func writeCoreFacts(path string) error { return pcWrite(path, nil, nil) }
 
-func pcWrite(path string, tree *ptMode) error {
-	g := &pcGen{byObj: map[*types.Func]*pcFn{}, sdone: map[string]bool{}, tree: tree}
+func pcWrite(path string, tree *ptMode, term *tmMode) error {
+	g := &pcGen{byObj: map[*types.Func]*pcFn{}, sdone: map[string]bool{}, tree: tree, term: term}
 	l := &concLoader{fset: fset, module: readModulePath(repo), root: repo, pkgs: map[string]*concPkg{}, loading: map[string]bool{}}
 	l.std = importer.ForCompiler(fset, "source", nil)
 	var bad []string
@@ -260,6 +299,9 @@ func pcWrite(path string, tree *ptMode) error {
 	if tree != nil {
 		targets = treeTargets
 		bad = append(bad, tree.init(g, l)...)
+	}
+	if term != nil {
+		targets = termTargets
 	}
 	for _, t := range targets {
 		key := t.name
@@ -319,12 +361,19 @@ func pcWrite(path string, tree *ptMode) error {
 		if g.byObj[found.obj] == nil {
 			g.byObj[found.obj] = found
 			g.fns = append(g.fns, found)
+			if term != nil && t.closure {
+				// the statements before the `return`: a function of the constructor's parameters that answers the captured
+				// variables they define
+				g.fns = append(g.fns, &pcFn{key: strings.TrimSuffix(key, "_parse") + "_new", pkg: p, decl: found.decl, obj: found.obj, ctorOf: found})
+			}
 		}
 	}
 	// the context and its cache come first (the monad is over the context)
 	ctxOK := false
 	if tree != nil {
 		ctxOK = tree.cellStruct(g, l)
+	} else if term != nil {
+		ctxOK = true // the terminal closures are polymorphic in the state: no struct is generated
 	} else if p, err := l.load(l.module + "/parsley"); err == nil && p.tpkg != nil {
 		if o := p.tpkg.Scope().Lookup("Context"); o != nil {
 			if n, ok := o.Type().(*types.Named); ok {
@@ -586,6 +635,9 @@ func pcWrite(path string, tree *ptMode) error {
 	}
 	if tree != nil {
 		return tree.write(path, g, ctxOK, out, names, bad)
+	}
+	if term != nil {
+		return term.write(path, out, names, bad)
 	}
 	var sb strings.Builder
 	sb.WriteString("/- GENERATED by harness/cmd/factgen (-out-core): the parser core TRANSLATED statement by statement into Lean definitions\n   (monad, value-level data types and the world parameter: Generated/CorePrelude.lean), from the repository's current\n   source on every run.  Do not edit. -/\nimport ParsleyVerif.Generated.CorePrelude\nset_option linter.unusedVariables false\nnamespace PV.FactsCore\nopen PV.CorePrelude\n\n")
